@@ -12,6 +12,9 @@ TRIPLES = [
     dict(name="moclo-entry", vector="MoCloEntryVector", module="MoCloProduct", next="MoCloEntry", next_vector="MoCloCassetteVector", outer="same"),
     dict(name="moclo-cassette", vector="MoCloCassetteVector", module="MoCloEntry", next="MoCloCassette", next_vector="MoCloDeviceVector", outer="adjacent"),
     dict(name="ytk-entry", vector="YTKEntryVector", module="YTKProduct", next="YTKEntry", next_vector="YTKCassetteVector", outer="ytk"),
+    # the MoClo loop: a device is a module of the cassette level again (it goes back into a cassette vector of its kit)
+    dict(name="cidar-device-loop", vector="CIDARDeviceVector", module="CIDARCassette", next="CIDARDevice", next_vector="CIDARCassetteVector", outer="same"),
+    dict(name="ecoflex-device-loop", vector="EcoFlexDeviceVector", module="EcoFlexCassette", next="EcoFlexDevice", next_vector="EcoFlexCassetteVector", outer="adjacent"),
 ]
 
 
